@@ -327,3 +327,40 @@ def c11_3(run):
     if 'Ok' not in seen:
         raise Inconclusive('vacuity')
     run.require_reached(*run.cur.reach)
+
+
+# ----------------------------------------------------------------------------------------------------------------- C11-4
+@obligation('C11', 'C11-4 restart from `prepared`: `started` with the in-flight height is written only if Celestia confirmed the stored blob-tx hash; otherwise the state reverts to the last confirmed submission')
+def c11_4(run):
+    ex = engine()
+    f = ex.find(r'^(relayer::write::)?try_confirm_submission_from_last_session$')
+    run.bound(rpc='confirm_submission_with_timeout is an oracle (confirmed at some height, or not); state-file writes are oracles that may fail')
+    # engine() hooks into_started as a logged oracle; add revert the same way
+    ex.hooks.insert(0, (re.compile(r'PreparedSubmission::revert$'), log_oracle('write_reverted', lambda c, s: Obj('relayer::submission::StartedSubmission'))))
+    ex.hooks.insert(0, (re.compile(r'StartedSubmission::last_submission_(sequencer|celestia)_height$'), lambda ctx: [(None, z3.BitVec('h', 64))]))
+    ex.hooks.insert(0, (re.compile(r'(^|::)Metrics::\w+$|State::set_latest_confirmed_celestia_height$'), lambda ctx: [(None, ())]))
+    ex.hooks.insert(0, (re.compile(r'(^|::)Height::value$'), lambda ctx: [(None, ctx.ex.deref_val(ctx.st, ctx.args[0]))]))
+    arc_state = Obj('Arc<State>', kind='arc'); arc_state.fields[('in', 0)] = Obj('relayer::state::State', kind='opaque')
+    st = ex.start(f, [Obj('CelestiaClient'), Obj('relayer::submission::PreparedSubmission'), arc_state, B.cell(Obj('Metrics', kind='opaque'))])
+    seen = set()
+    for i, p in enumerate(run.explore(ex, st, poll=True, allow_havoc=(r'^Arguments::|fmt::',))):
+        if p.kind != 'return':
+            run.prove(f'no panic [path {i}]', p.pc, z3.BoolVal(False), detail=p.info); continue
+        r = p.result.fields[('Ready', 0)]
+        names = [e[0] for e in p.log]
+        conf = [e for e in p.log if e[0] == 'confirm']; ws = [e for e in p.log if e[0] == 'write_started']; rv = [e for e in p.log if e[0] == 'write_reverted']
+        run.sample({'path': i, 'result': r.discr, 'effects': names}); seen.add((r.discr, bool(ws), bool(rv)))
+        claim = [z3.BoolVal(len(conf) == 1 and len(ws) + len(rv) <= 1)]
+        if conf:
+            claim.append(conf[0][2] == z3.BitVec('prepared_blob_tx_hash', 256) if z3.is_expr(conf[0][2]) else z3.BoolVal(True))
+            if ws:
+                claim += [conf[0][1], ws[0][2] == z3.BitVec('confirmed_celestia_height', 64)]
+            if rv:
+                claim.append(z3.Not(conf[0][1]))
+        if r.discr == 'Ok':
+            claim.append(z3.BoolVal(bool(ws) or bool(rv)))
+            claim.append((ws or rv)[0][1] if (ws or rv) else z3.BoolVal(False))
+        run.prove(f'the stored blob-tx hash is queried once; `started` is written only with the confirmed height, the revert only without confirmation; Ok only after a successful write [path {i}]', p.pc, z3.And(*claim))
+    if not any(s[1] for s in seen) or not any(s[2] for s in seen):
+        raise Inconclusive(f'vacuity: {seen}')
+    run.require_reached(*run.cur.reach)
